@@ -604,6 +604,16 @@ class Gen:
                 mp.append([o, self.newcol(st, "m")])
         if all(x[1] is None for x in mp) and len(mp) >= len(cols):
             return None
+        dels = [x[0] for x in mp if x[1] is None]
+        rens = [x for x in mp if x[1] is not None]
+        if dels and rens and self.rng.random() < 0.5:
+            # the name of a deleted column is re-used as the new name of another column
+            rens[0][1] = dels[0]
+            self.cnt("map_columns_reuses_deleted_name")
+        elif len(rens) == 2 and self.rng.random() < 0.3:
+            # two columns exchange their names
+            rens[0][1], rens[1][1] = rens[1][0], rens[0][0]
+            self.cnt("map_columns_swaps_names")
         return {"op": "map_columns", "map": mp}, {}
 
     def step_order_rows(self, st, final=False):
